@@ -237,15 +237,50 @@ def one_class(ctx, c):
 
 
 def octave_validation(ctx, R="R-C19/OctaveScaling/validation"):
+    """OctaveScaling(low_hz) raises ValueError exactly for low_hz <= 0: the path conditions of the constructor's raises
+    (the constructor may be inherited, helpers are read through) are evaluated at values on both sides of zero"""
     prog = ctx.prog
     c = prog.cls("scales.OctaveScaling")
-    init = prog.own_method(c, "__init__")
+    init = prog.find_method(c, "__init__")
+    what = "OctaveScaling rejects low_hz <= 0 with ValueError before storing it"
+    if init is None or len(init.params) < 2:
+        ctx.bad(R, c.methods.get("hertz_to_scale") or next(iter(c.methods.values())), c.node, "OctaveScaling has no constructor that takes (and so could validate) low_hz", what, robust=True)
+        return
+    par = init.params[1]
+    decided = None
+    try:
+        ev = SymEval(prog, init, inline_self=True).run()
+        guards = [g for g, st in ev.raises if astq.raise_type(prog, init, st) == "ValueError"]
+        other = [g for g, st in ev.raises if astq.raise_type(prog, init, st) != "ValueError"]
+        rows = []
+        for v in (Fraction(-1000), Fraction(-1), Fraction(-1, 10**12), Fraction(0), Fraction(1, 10**12), Fraction(1, 2), Fraction(1), Fraction(20), Fraction(10**6)):
+            gs = [S.subst(g, {par: S.lift(v)}) for g in guards]
+            os_ = [S.subst(g, {par: S.lift(v)}) for g in other]
+            if not all(g.is_const for g in gs + os_):
+                rows = None
+                break
+            rows.append((v, any(S.truthy(g) for g in gs), any(S.truthy(g) for g in os_)))
+        if rows is not None:
+            wrong = [(v, r) for v, r, o in rows if (r != (v <= 0)) or o]
+            decided = (not wrong, wrong, len(guards))
+    except Exception:
+        decided = None
+    if decided is not None:
+        ok, wrong, ng = decided
+        if ok:
+            ctx.ok(R, init.loc(), what, "%d ValueError raise(s); path conditions evaluated at 9 values of low_hz on both sides of 0" % ng)
+        else:
+            v, r = wrong[0]
+            ctx.bad(R, init, init.node, "%s(low_hz=%s) %s" % (c.name, float(v), "raises although the value is positive" if v > 0 else
+                                                             "is accepted: no ValueError is raised for this non-positive low_hz (the 1e-10 floor then hides the division by zero)"),
+                    what, robust=True)
+        return
     body = [s for s in init.node.body if not (isinstance(s, ast.Expr) and isinstance(s.value, ast.Constant))]
     first = body[0] if body else MISSING(None)
     ok = isinstance(first, ast.If) and astq.in_texts(first.test, ("low_hz<=0", "0>=low_hz", "notlow_hz>0",)) and \
         len(first.body) == 1 and isinstance(first.body[0], ast.Raise) and astq.raise_type(prog, init, first.body[0]) == "ValueError"
-    ctx.check(ok, R, init, first if first is not None else init.node, "OctaveScaling rejects low_hz <= 0 with ValueError before storing it",
-              "OctaveScaling.__init__ does not start with `if low_hz <= 0: raise ValueError`")
+    ctx.check(ok, R, init, first if first is not None else init.node, what,
+              "OctaveScaling.__init__ does not start with `if low_hz <= 0: raise ValueError`", structural=True)
 
 
 def no_derived_state(ctx, R="R-C19/no-derived-state"):
